@@ -489,6 +489,41 @@ Definition current_route_path c e routes rname matched matchdict get els o kw : 
   rlet a := path_app_url current_route_path_script_quoted e in
   current_route_url c e routes rname matched matchdict get els (set_app_url o a) kw.
 
+(* ------------------------------------------------------------------ routes registered with a full URL as pattern
+   (config/routes.py add_route, `if parsed.hostname:`): the route's pattern is the URL's path, and a pregenerator
+   puts  <_scheme | the pattern's scheme | the request's scheme>://<netloc of the pattern>  into _app_url; an
+   _app_url supplied by the caller -- hence every *_path form -- is refused with ValueError *)
+Definition extinfo := list (text * (option text * text)).       (* route name -> (scheme of the pattern, netloc) *)
+Definition ext_app_url (e : env) (o : overrides) (x : option text * text) : text :=
+  (match o_scheme o with
+   | Some s => s
+   | None => match fst x with Some s => s | None => e_scheme e end
+   end) ++ [58; 47; 47] ++ snd x.
+Definition route_url_x (c : jcache) (e : env) (xs : extinfo) (routes : list (text * pattern)) (name : text)
+           (els : list pval) (o : overrides) (kw : list (text * kwval)) : res text :=
+  match assoc name routes, assoc name xs with
+  | Some _, Some x =>
+      match o_app_url o with
+      | Some _ => Err EVal
+      | None => route_url c e routes name els (set_app_url o (ext_app_url e o x)) kw
+      end
+  | _, _ => route_url c e routes name els o kw
+  end.
+Definition route_path_x c e xs routes name els o kw : res text :=
+  rlet a := path_app_url route_path_script_quoted e in
+  route_url_x c e xs routes name els (set_app_url o a) kw.
+Definition current_route_url_x c e xs routes (rname matched : option text) (matchdict : list (text * kwval))
+           (get : list (pval * qval)) els o kw : res text :=
+  match (match rname with Some n => Some n | None => matched end) with
+  | None => Err EVal
+  | Some name =>
+      let o' := match o_query o with Some _ => o | None => set_query o (QPairs get) end in
+      route_url_x c e xs routes name els o' (dupdate matchdict kw)
+  end.
+Definition current_route_path_x c e xs routes rname matched matchdict get els o kw : res text :=
+  rlet a := path_app_url current_route_path_script_quoted e in
+  current_route_url_x c e xs routes rname matched matchdict get els (set_app_url o a) kw.
+
 (* ------------------------------------------------------------------ vocabulary of the translator
    (harness/c17/translate.py, PRIMITIVE TABLE): the definitions regenerated from the source into
    Gen/Code_C17.v consist of control flow over the functions above and these projections *)
@@ -933,7 +968,7 @@ Definition put_decoded (r : res text) : val :=
   end.
 
 (* the spec's expectations for one generation case *)
-Definition put_spec (must : bool) (e : env) (o : overrides) (els : option (list pval)) (ext : option text) : val :=
+Definition put_spec (must : bool) (e : env) (o : overrides) (els : option (list pval)) (ext xauth : option text) : val :=
   VL [ (* 0: scheme://authority the overrides ask for (when at least one is given and no _app_url) *)
        match o_app_url o, o_scheme o, o_host o, o_port o with
        | Some _, _, _, _ => VL []
@@ -959,25 +994,38 @@ Definition put_spec (must : bool) (e : env) (o : overrides) (els : option (list 
           the sub-path is outside the specified class *)
        put_otext ext;
        (* 6: every input is well-formed: a URL has to be produced *)
-       vbool must ].
+       vbool must;
+       (* 7: the route's pattern is a full URL: scheme://netloc the result has to start with (no script name follows) *)
+       put_otext xauth ].
 
-Definition answer_x (must : bool) (e : env) (o : overrides) (els : option (list pval)) (ext : option text) (u p : res text) : val :=
-  VL [put_res u; put_res p; put_decoded u; put_spec must e o els ext].
+Definition answer_xx (must : bool) (e : env) (o : overrides) (els : option (list pval)) (ext xauth : option text)
+           (u p : res text) : val :=
+  VL [put_res u; put_res p; put_decoded u; put_spec must e o els ext xauth].
+Definition answer_x must e o els ext u p := answer_xx must e o els ext None u p.
 Definition answer must e o els u p := answer_x must e o els None u p.
+Definition get_exts : val -> option extinfo :=
+  get_list_of (fun v => match v with
+                        | VL [VT n; s; VT netloc] => olet s := get_opt get_text s in Some (n, (s, netloc))
+                        | _ => None end).
+(* must-produce and expected authority for a possibly external route *)
+Definition ext_must (xs : extinfo) (name : text) (o : overrides) : bool :=
+  match assoc name xs with Some _ => onone (o_app_url o) | None => true end.
+Definition ext_auth (e : env) (xs : extinfo) (name : text) (o : overrides) : option text :=
+  match assoc name xs with Some x => Some (ext_app_url e o x) | None => None end.
 
 Definition all_path_chars (s : text) : bool := forallb path_char s.
 
 Definition run_C17 (v : val) : val :=
   ret_or_bad (
     match v with
-    | VL [VI 0%Z; VI 0%Z; e; rs; VT name; els; o; kw; w] =>
-        olet e := get_env e in olet rs := get_routes rs in olet els := get_pvals els in
+    | VL [VI 0%Z; VI 0%Z; e; rs; VT name; els; o; kw; w; xs] =>
+        olet e := get_env e in olet rs := get_routes rs in olet els := get_pvals els in olet xs := get_exts xs in
         olet o := get_ov o in olet kw := get_kw kw in olet w := get_list_of get_pvals w in
         let c := warm_cache w in
         (* the url form is computed first and fills the cache for the path form *)
         let c' := match els with [] => c | _ => warm_step c els end in
-        Some (answer (must_route e rs name els o kw) e o (Some els)
-                     (route_url c e rs name els o kw) (route_path c' e rs name els o kw))
+        Some (answer_xx (must_route e rs name els o kw && ext_must xs name o) e o (Some els) None (ext_auth e xs name o)
+                        (route_url_x c e xs rs name els o kw) (route_path_x c' e xs rs name els o kw))
     | VL [VI 0%Z; VI 1%Z; e; names; els; o; w] =>
         olet e := get_env e in olet names := get_pvals names in olet els := get_pvals els in
         olet o := get_ov o in olet w := get_list_of get_pvals w in
@@ -1001,20 +1049,22 @@ Definition run_C17 (v : val) : val :=
         let '(els, ext) := spec_static e regs path in
         Some (answer_x (must_static e rs regs path o kw) e o els ext
                        (static_url_x e rs regs path o kw) (static_path_x e rs regs path o kw))
-    | VL [VI 0%Z; VI 3%Z; e; rs; rname; matched; md; gt; els; o; kw; w] =>
-        olet e := get_env e in olet rs := get_routes rs in
+    | VL [VI 0%Z; VI 3%Z; e; rs; rname; matched; md; gt; els; o; kw; w; xs] =>
+        olet e := get_env e in olet rs := get_routes rs in olet xs := get_exts xs in
         olet rname := get_opt get_text rname in olet matched := get_opt get_text matched in
         olet md := get_kw md in olet gt := get_pairs gt in olet els := get_pvals els in
         olet o := get_ov o in olet kw := get_kw kw in olet w := get_list_of get_pvals w in
         let o' := match o_query o with Some _ => o | None => set_query o (QPairs gt) end in
         let c := warm_cache w in
         let c' := match els with [] => c | _ => warm_step c els end in
-        let must := match (match rname with Some n => Some n | None => matched end) with
-                    | Some n => must_route e rs n els o' (dupdate md kw)
+        let nm := match rname with Some n => Some n | None => matched end in
+        let must := match nm with
+                    | Some n => must_route e rs n els o' (dupdate md kw) && ext_must xs n o
                     | None => false
                     end in
-        Some (answer must e o' (Some els) (current_route_url c e rs rname matched md gt els o kw)
-                     (current_route_path c' e rs rname matched md gt els o kw))
+        Some (answer_xx must e o' (Some els) None (match nm with Some n => ext_auth e xs n o | None => None end)
+                        (current_route_url_x c e xs rs rname matched md gt els o kw)
+                        (current_route_path_x c' e xs rs rname matched md gt els o kw))
     | VL [VI 1%Z; VT u] =>
         (* reference decoder alone *)
         let s := url_split u in
